@@ -125,7 +125,13 @@ theorem read_progress (s : State) (h : s.rxWaiting ≠ []) :
     omega
   · simp [step]
 
-/-- a port error during a read gives an empty read; nothing is consumed or lost -/
+/-- Reading aid, NOT a result: `rfl` — it restates the definition of `step … .readError`.  The op stands for exactly one
+    thing in the code, the `except serial.SerialException` branch of `SerialDevice._read` (its shape — the handler returns
+    `b""` — is the translator fact in `source_shape`): when `self._ser.read(self._ser.in_waiting)` raises a
+    `SerialException` the caller gets `b""` and the model takes nothing from the OS buffer.  It does not say that a failing
+    port yields empty reads: with pyserial 3.5 a hang-up of the other end of a tty makes `in_waiting` raise `OSError(EIO)`,
+    a closed port `TypeError`; neither is a `SerialException`, both propagate out of `read()` (measured, not judged:
+    evidence `coverage.pty.hangup_probe`).  The C18 sentence says nothing about errors; this is outside the property. -/
 theorem read_error_empty (pt : Port) (s : State) : step pt s .readError = (s, .read [] false) := rfl
 
 /-- `drop_all` on a line where nothing arrives meanwhile takes exactly what is waiting, does not wait
